@@ -113,7 +113,10 @@ func histCase(env *vlib.Env, h int, rep *vlib.Reporter) {
 	ident := map[common.Address]string{}
 	// op script
 	nonce := uint64(10)
-	sign := func(s int, m *shmsg.Message, l string) smchain.Tx { nonce++; return u.SignTx(s, nonce, smchain.ChainID, m, l) }
+	sign := func(s int, m *shmsg.Message, l string) smchain.Tx {
+		nonce++
+		return u.SignTx(s, nonce, smchain.ChainID, m, l)
+	}
 	all := make([]common.Address, n)
 	copy(all, u.Addrs[:n])
 	var ops []smchain.Tx
